@@ -387,8 +387,19 @@ Path_drw = path_type("drw", docstring="path to a directory that exists and is re
 
 register_type(os.PathLike, str, str)
 register_type(complex)
+
+
+def decimal_serializer(value):
+    try:
+        return float(value)
+    except ValueError:  # signaling NaN has no float
+        return str(value)
+
+
 register_type_on_first_use(
-    "decimal.Decimal", float, deserializer_exceptions=(ValueError, TypeError, AttributeError, ArithmeticError)
+    "decimal.Decimal",
+    decimal_serializer,
+    deserializer_exceptions=(ValueError, TypeError, AttributeError, ArithmeticError),
 )
 register_type_on_first_use("uuid.UUID")
 
